@@ -560,6 +560,15 @@ impl<F: Float> Harmonic<F> {
     ///
     pub fn ci_mean(&self, confidence: Confidence) -> CIResult<Interval<F>> {
         let arith_ci = self.recip_space.ci_mean(confidence.flipped())?;
+        // the reciprocal of a bound on the mean of the reciprocals bounds the harmonic mean only if
+        // that bound is strictly positive
+        let inverted = match confidence {
+            Confidence::UpperOneSided(_) => arith_ci.high_f(),
+            _ => arith_ci.low_f(),
+        };
+        if !(inverted > F::zero()) {
+            return Err(IntervalError::InvalidBounds.into());
+        }
         let (lo, hi) = (F::one() / arith_ci.high_f(), F::one() / arith_ci.low_f());
         match confidence {
             Confidence::TwoSided(_) => Interval::new(lo, hi).map_err(|e| e.into()),
